@@ -132,3 +132,191 @@ func init() {
 			return out
 		}})
 }
+
+// OUTPATH — every successful exit of an operation with a distinct receiver has produced the receiver's data.
+//
+// `RescaleTo(op0, scale, opOut)`: `*opOut.MetaData = *op0.MetaData` at the top, then
+// `if nbRescales == 0 { return nil }` — tidied from `if nbRescales > 0 { … } else if op0 != opOut { opOut.Copy(op0) }`.
+// On the no-op path a distinct receiver now carries the metadata of op0 and the polynomials of whatever it held.
+//
+// Rule (must-analysis over the control-flow graph): in an exported method of an evaluator that has a parameter named
+// opOut and that writes the metadata of opOut from an operand (`*opOut.MetaData = *opX.MetaData`, or field by field),
+// every return that is not a failing return is reached only through paths on which the data of opOut was written — a
+// call that receives opOut (or a component of it) as an argument, a method of opOut that stores (Copy, CopyLvl, …), an
+// assignment into opOut.Value — or on which the receiver was compared with the operand (the in-place case is then
+// handled deliberately).
+func scanOutPath(c *core.Ctx) []ob {
+	var out []ob
+	n := 0
+	c.FuncDecls(func(pk *packages.Package, file *ast.File, fd *ast.FuncDecl) {
+		rel := core.ShortPkg(pk.PkgPath)
+		if fd.Body == nil || fd.Recv == nil || !fd.Name.IsExported() || fileIsTestSupport(c.Program, fd.Pos()) {
+			return
+		}
+		if !(c.IsFixture || strings.HasPrefix(rel, "schemes/") || strings.HasPrefix(rel, "core/rlwe") || strings.HasPrefix(rel, "circuits/")) {
+			return
+		}
+		info := pk.TypesInfo
+		fn, _ := info.Defs[fd.Name].(*types.Func)
+		if fn == nil {
+			return
+		}
+		sig := fn.Type().(*types.Signature)
+		var outP *types.Var
+		for i := 0; i < sig.Params().Len(); i++ {
+			if p := sig.Params().At(i); p.Name() == "opOut" && isMetaCarrier(p.Type()) {
+				outP = p
+			}
+		}
+		if outP == nil {
+			return
+		}
+		rooted := func(e ast.Expr) bool {
+			id := rootIdent(e)
+			return id != nil && info.Uses[id] == types.Object(outP)
+		}
+		// does the function hand the metadata of an operand to the receiver?
+		metaFromOperand := false
+		ast.Inspect(fd.Body, func(x ast.Node) bool {
+			as, ok := x.(*ast.AssignStmt)
+			if !ok || len(as.Lhs) != 1 || len(as.Rhs) != 1 {
+				return true
+			}
+			if rooted(as.Lhs[0]) && strings.Contains(exprString(as.Lhs[0]), "MetaData") {
+				if id := rootIdent(as.Rhs[0]); id != nil && info.Uses[id] != types.Object(outP) {
+					if _, isParam := info.Uses[id].(*types.Var); isParam && strings.Contains(exprString(as.Rhs[0]), "MetaData") {
+						metaFromOperand = true
+					}
+				}
+			}
+			return true
+		})
+		if !metaFromOperand {
+			return
+		}
+		_, errRes := lastResultIsError(sig)
+		pm := parentMap(fd)
+		g := buildCFG(info, fd.Body)
+		writes := func(nd ast.Node) bool {
+			w := false
+			ast.Inspect(nd, func(x ast.Node) bool {
+				if w {
+					return false
+				}
+				switch v := x.(type) {
+				case *ast.FuncLit:
+					return false
+				case *ast.CallExpr:
+					if isBuiltinCall(info, v, "len") || isBuiltinCall(info, v, "cap") {
+						return true
+					}
+					for _, a := range v.Args {
+						if rooted(a) {
+							w = true
+						}
+					}
+					if s, ok := unparen(v.Fun).(*ast.SelectorExpr); ok && rooted(s.X) {
+						switch s.Sel.Name {
+						case "Copy", "CopyLvl", "CopyNew", "Zero", "CopyValues":
+							w = true
+						}
+					}
+				case *ast.AssignStmt:
+					for _, l := range v.Lhs {
+						if rooted(l) && strings.Contains(exprString(l), ".Value") {
+							w = true
+						}
+					}
+				case *ast.BinaryExpr:
+					// the receiver compared with an operand: the in-place case is looked at
+					if v.Op == token.EQL || v.Op == token.NEQ {
+						if (rooted(v.X) && !isNilIdent(v.Y)) || (rooted(v.Y) && !isNilIdent(v.X)) {
+							if _, plainX := unparen(v.X).(*ast.Ident); plainX {
+								if _, plainY := unparen(v.Y).(*ast.Ident); plainY {
+									w = true
+								}
+							}
+						}
+					}
+				}
+				return true
+			})
+			return w
+		}
+		// state: bit 0 = the metadata of opOut may have been taken from an operand, bit 1 = the data of opOut may have
+		// been written (may on both: a return is reported only when no path at all wrote the data before it, which
+		// keeps loops and data-dependent branches out of the picture)
+		metaW := func(nd ast.Node) bool {
+			m := false
+			ast.Inspect(nd, func(x ast.Node) bool {
+				if as, ok := x.(*ast.AssignStmt); ok && len(as.Lhs) == 1 && len(as.Rhs) == 1 {
+					if rooted(as.Lhs[0]) && strings.Contains(exprString(as.Lhs[0]), "MetaData") && strings.Contains(exprString(as.Rhs[0]), "MetaData") && !rooted(as.Rhs[0]) {
+						m = true
+					}
+				}
+				return !m
+			})
+			return m
+		}
+		step := func(nd ast.Node, s int) int {
+			if metaW(nd) {
+				s |= 1
+			}
+			if writes(nd) {
+				s |= 2
+			}
+			return s
+		}
+		in := forward(g, 0, func() int { return 0 }, step,
+			func(a, b int) int { return a | b },
+			func(a, b int) bool { return a == b })
+		n++
+		fkey := core.FuncKey(pk, fd)
+		key := "OUTPATH:" + fkey
+		var bad []string
+		var badPos token.Pos
+		for _, b := range g.Blocks {
+			s, ok := in[b]
+			if !ok || !b.Live {
+				continue
+			}
+			for _, nd := range b.Nodes {
+				s = step(nd, s)
+				if r, ok := nd.(*ast.ReturnStmt); ok {
+					if returnIsFailing(info, pm, r, errRes) {
+						continue
+					}
+					if s&1 != 0 && s&2 == 0 {
+						bad = append(bad, c.Rel(r.Pos()))
+						if badPos == token.NoPos {
+							badPos = r.Pos()
+						}
+					}
+				}
+			}
+		}
+		if len(bad) > 0 {
+			out = append(out, withProps(violOb("OUTPATH", key, c.Rel(badPos), fmt.Sprintf("%s hands the metadata of an operand to opOut but reaches the successful return at %s on a path that never writes the data of opOut nor compares it with the operand: a distinct receiver then carries the new metadata over its old polynomials", fkey, strings.Join(bad, ", "))), propsForKey(fkey)...))
+		} else {
+			out = append(out, withProps(okOb("OUTPATH", key, c.Rel(fd.Pos()), "no successful return is reached with the metadata handed over and the data of opOut untouched on every path", true), propsForKey(fkey)...))
+		}
+	})
+	c.Stats["outpath_funcs"] = n
+	return out
+}
+
+func init() {
+	all := []string{"C04", "C05", "C06", "C09", "C11", "C12", "C13", "C18"}
+	core.Register(&core.Rule{Name: "OUTPATH", Wide: true, Props: all,
+		Doc: "an exported evaluator method that copies the metadata of an operand to opOut reaches every successful return only through paths that wrote the data of opOut (a call receiving it, Copy, a store into Value) or compared opOut with the operand",
+		Run: func(c *core.Ctx) []ob {
+			out := scanOutPath(c)
+			for _, o := range core.Floor("OUTPATH", nil, "operations handing metadata to opOut", c.Stats["outpath_funcs"], 10) {
+				out = append(out, withProps(o, "C06", "C09"))
+			}
+			for _, o := range control(c, "OUTPATH", scanOutPath, "(fixEvaluator).RescaleNoop") {
+				out = append(out, withProps(o, "C06", "C09"))
+			}
+			return out
+		}})
+}
